@@ -194,6 +194,7 @@ def h_forms(eng, op, u, v, form):
             dim_follows(r, tag)
             if not form.startswith("inplace"):
                 eng.prove(And(Eq(arr.magnitude[0], x), Eq(arr.magnitude[1], x2), arr.units == ureg.Unit(u)), f"{tag}:left-untouched")
+                eng.prove(not np.shares_memory(r.magnitude, arr.magnitude) and not np.shares_memory(r.magnitude, barr.magnitude), f"{tag}:result-is-a-new-array")
         eng.prove(And(Eq(barr.magnitude[0], y), Eq(barr.magnitude[1], y2), barr.units == ureg.Unit(v)), f"{tag}:other-untouched")
     elif form in ("array-number", "inplace-array-number"):
         # a bare number as right operand of an object-array quantity (u is dimensionless here)
@@ -387,6 +388,19 @@ def h_bare_number(eng, op, u, side):
     else:
         want = base if (op == "add" or side == "right") else -base
         eng.prove(Eq(m, want), f"{op}-number:zero-value")
+    # the same with an array magnitude: the result is a new array -- writing into it afterwards
+    # (total = 0; total += q ...) must not reach the operand
+    import numpy as np
+
+    x2 = eng.real("x2")
+    arr = ureg.Quantity(np.array([x, x2], dtype=object), u)
+    s2, r2 = _run((lambda: f(arr, c)) if side == "right" else (lambda: f(c, arr)))
+    eng.prove(s2 == s, f"{op}-number-array:same-kind-of-outcome")
+    if s2 == "ok":
+        eng.prove(r2.magnitude is not arr.magnitude and not np.shares_memory(r2.magnitude, arr.magnitude), f"{op}-number-array:result-is-a-new-array")
+        r2 *= 3
+        r2 += r2
+        eng.prove(And(Eq(arr.magnitude[0], x), Eq(arr.magnitude[1], x2), arr.units == ureg.Unit(u)), f"{op}-number-array:operand-untouched-by-later-in-place-use-of-the-result")
 
 
 def h_cross_dimension(eng, op, u, v):
